@@ -4,7 +4,11 @@
    credentials file, the Go code as a map[string]bool built from that list by Load; rep builds
    the Go-side store from the model's.  A nil *CredentialsStore is None. *)
 From Coq Require Import List String Bool ZArith Lia.
-From RQ Require Import Lib.AList Lib.GoLib Lib.GenTac Model.C19 Gen.Auth.
+From RQ Require Import Lib.AList.
+From RQ Require Import Lib.GoLib.
+From RQ Require Import Lib.GenTac.
+From RQ Require Import Model.C19.
+From RQ Require Import Gen.Auth.
 Import ListNotations.
 Local Open Scope string_scope.
 
@@ -30,7 +34,7 @@ Proof. unfold CredentialsStore_Check, check, rep. gen_cases. Qed.
 
 Lemma gen_HasPerm_eq : forall c u p, CredentialsStore_HasPerm (rep c) u p = has_perm c u p.
 Proof.
-  unfold CredentialsStore_HasPerm, has_perm, rep, Auth.AllUsers, C19.AllUsers; intros; cbn.
+  unfold CredentialsStore_HasPerm, has_perm, rep, Auth.AllUsers, C19.AllUsers; intros; aux; cbn.
   rewrite !lookup_rep_perms.
   destruct (lookup (st_perms c) u), (lookup (st_perms c) "*"); cbn;
     rewrite ?lookup_perm_map; gen_cases.
@@ -38,14 +42,14 @@ Qed.
 
 Lemma gen_HasAnyPerm_eq : forall c u ps, CredentialsStore_HasAnyPerm (rep c) u ps = has_any_perm c u ps.
 Proof.
-  unfold CredentialsStore_HasAnyPerm, has_any_perm; intros; cbn.
+  unfold CredentialsStore_HasAnyPerm, has_any_perm; intros; aux; cbn.
   induction ps as [|x ps IH]; cbn; [reflexivity|].
   rewrite gen_HasPerm_eq, IH. gen_cases.
 Qed.
 
 Lemma gen_AA_eq : forall c u p perm, CredentialsStore_AA (Some (rep c)) u p perm = aa c u p perm.
 Proof.
-  unfold CredentialsStore_AA, aa, Auth.AllUsers, C19.AllUsers, Auth.PermAll, C19.PermAll; intros.
+  unfold CredentialsStore_AA, aa, Auth.AllUsers, C19.AllUsers, Auth.PermAll, C19.PermAll; intros; aux.
   rewrite !gen_HasAnyPerm_eq, gen_Check_eq. gen_cases.
 Qed.
 
